@@ -403,4 +403,144 @@ theorem fresh_abs (t : Tmpl V) (ext : Bool) (hn : (keysOf t.strs).Nodup) :
   rw [lookup_absStr t o hwf k]
   simp [o, TObj.getOwnStr, lookup]
 
+/-! ### histories: the lazy object equals the eager one after ANY sequence of own-property operations -/
+
+inductive TOp (V : Type) where
+  | defineStr (k : Key) (d : Desc V)
+  | deleteStr (k : Key)
+  | defineSym (s : Key) (d : Desc V)
+  | deleteSym (s : Key)
+  | putSym (s : Key) (v : Stored V)
+
+def TObj.step [DecidableEq V] (undef : V) (t : Tmpl V) (o : TObj V) : TOp V → TObj V
+  | .defineStr k d => (o.defineStr undef t k d).1
+  | .deleteStr k => (o.deleteStr t k).1
+  | .defineSym s d => (o.defineSym undef t s d).1
+  | .deleteSym s => (o.deleteSym t s).1
+  | .putSym s v => o.putSym t s v
+
+/-- the eager object: all template properties present from the start, ordinary list operations -/
+structure Eager (V : Type) where
+  strs : List (Key × Stored V)
+  syms : List (Key × Stored V)
+  ext : Bool
+
+def ordDefine [DecidableEq V] (undef : V) (l : List (Key × Stored V)) (k : Key) (d : Desc V) (ext : Bool) : List (Key × Stored V) :=
+  match defineOwn undef (lookup l k) d ext with
+  | some v => put l k v
+  | none => l
+
+def ordDelete (l : List (Key × Stored V)) (k : Key) : List (Key × Stored V) :=
+  match lookup l k with
+  | none => l
+  | some v => if checkDelete v then eraseKey l k else l
+
+def Eager.step [DecidableEq V] (undef : V) (e : Eager V) : TOp V → Eager V
+  | .defineStr k d => { e with strs := ordDefine undef e.strs k d e.ext }
+  | .deleteStr k => { e with strs := ordDelete e.strs k }
+  | .defineSym s d => { e with syms := ordDefine undef e.syms s d e.ext }
+  | .deleteSym s => { e with syms := ordDelete e.syms s }
+  | .putSym s v => { e with syms := put e.syms s v }
+
+def TObj.absE (t : Tmpl V) (o : TObj V) : Eager V := { strs := o.absStr t, syms := o.absSym t, ext := o.ext }
+
+theorem defineStr_fields [DecidableEq V] (undef : V) (t : Tmpl V) (o : TObj V) (k : Key) (d : Desc V) :
+    (o.defineStr undef t k d).1.symValues = o.symValues ∧ (o.defineStr undef t k d).1.ext = o.ext := by
+  unfold TObj.defineStr
+  simp only
+  repeat' split
+  all_goals exact ⟨rfl, rfl⟩
+
+theorem deleteStr_fields (t : Tmpl V) (o : TObj V) (k : Key) :
+    (o.deleteStr t k).1.symValues = o.symValues ∧ (o.deleteStr t k).1.ext = o.ext := by
+  unfold TObj.deleteStr
+  repeat' split
+  all_goals exact ⟨rfl, rfl⟩
+
+theorem step_refines [DecidableEq V] (undef : V) (t : Tmpl V) (o : TObj V) (h : o.WF t) (op : TOp V) :
+    (o.step undef t op).absE t = (o.absE t).step undef op ∧ (o.step undef t op).WF t := by
+  cases op with
+  | defineStr k d =>
+    obtain ⟨h1, h2⟩ := defineStr_abs undef t o h k d
+    refine ⟨?_, h2⟩
+    have e1 := congrArg Prod.fst h1
+    simp only at e1
+    have hsym : (o.defineStr undef t k d).1.absSym t = o.absSym t := by
+      simp [TObj.absSym, TObj.syms, (defineStr_fields undef t o k d).1]
+    have hext : (o.defineStr undef t k d).1.ext = o.ext := (defineStr_fields undef t o k d).2
+    simp only [TObj.step, TObj.absE, Eager.step, ordDefine, hsym, hext, e1]
+    cases defineOwn undef (lookup (o.absStr t) k) d o.ext <;> rfl
+  | deleteStr k =>
+    obtain ⟨h1, h2⟩ := deleteStr_abs t o h k
+    refine ⟨?_, h2⟩
+    have e1 := congrArg Prod.fst h1
+    simp only at e1
+    have hsym : (o.deleteStr t k).1.absSym t = o.absSym t := by
+      simp [TObj.absSym, TObj.syms, (deleteStr_fields t o k).1]
+    have hext : (o.deleteStr t k).1.ext = o.ext := (deleteStr_fields t o k).2
+    simp only [TObj.step, TObj.absE, Eager.step, ordDelete, hsym, hext, e1]
+    cases lookup (o.absStr t) k with
+    | none => rfl
+    | some v => simp only; split <;> rfl
+  | defineSym s d =>
+    have h1 := defineSym_abs undef t o s d
+    have e1 := congrArg Prod.fst h1
+    simp only at e1
+    have hstr : ∀ o' : TObj V, o'.values = o.values → o'.propNames = o.propNames → o'.absStr t = o.absStr t ∧ (o'.WF t) := by
+      intro o' hv hp
+      have hg : ∀ k, o'.getOwnStr t k = o.getOwnStr t k := by intro k; simp [TObj.getOwnStr, hv]
+      have hn : o'.names t = o.names t := by simp [TObj.names, hp]
+      refine ⟨by simp [TObj.absStr, hn, hg], ⟨h.tmplNodup, by rw [hv]; exact h.valuesNodup, by rw [hn]; exact h.namesNodup, ?_⟩⟩
+      intro k; rw [hn, hg]; exact h.namesIff k
+    have hres : (o.defineSym undef t s d).1.values = o.values ∧ (o.defineSym undef t s d).1.propNames = o.propNames ∧
+        (o.defineSym undef t s d).1.ext = o.ext := by
+      unfold TObj.defineSym
+      simp only
+      repeat' split
+      all_goals exact ⟨rfl, rfl, rfl⟩
+    obtain ⟨a1, a2⟩ := hstr _ hres.1 hres.2.1
+    refine ⟨?_, a2⟩
+    simp only [TObj.step, TObj.absE, Eager.step, ordDefine, a1, hres.2.2, e1]
+    cases defineOwn undef (lookup (o.absSym t) s) d o.ext <;> rfl
+  | deleteSym s =>
+    have h1 := deleteSym_abs t o s
+    have e1 := congrArg Prod.fst h1
+    simp only at e1
+    have hres : (o.deleteSym t s).1.values = o.values ∧ (o.deleteSym t s).1.propNames = o.propNames ∧
+        (o.deleteSym t s).1.ext = o.ext := by
+      unfold TObj.deleteSym
+      simp only
+      repeat' split
+      all_goals exact ⟨rfl, rfl, rfl⟩
+    have hg : ∀ k, (o.deleteSym t s).1.getOwnStr t k = o.getOwnStr t k := by intro k; simp [TObj.getOwnStr, hres.1]
+    have hn : (o.deleteSym t s).1.names t = o.names t := by simp [TObj.names, hres.2.1]
+    have a1 : (o.deleteSym t s).1.absStr t = o.absStr t := by simp [TObj.absStr, hn, hg]
+    have hwf : ((o.deleteSym t s).1).WF t :=
+      ⟨h.tmplNodup, by rw [hres.1]; exact h.valuesNodup, by rw [hn]; exact h.namesNodup, by intro k; rw [hn, hg]; exact h.namesIff k⟩
+    refine ⟨?_, hwf⟩
+    simp only [TObj.step, TObj.absE, Eager.step, ordDelete, a1, hres.2.2, e1]
+    cases lookup (o.absSym t) s with
+    | none => rfl
+    | some v => simp only; split <;> rfl
+  | putSym s v =>
+    have hg : ∀ k, (o.putSym t s v).getOwnStr t k = o.getOwnStr t k := by intro k; simp [TObj.getOwnStr, TObj.putSym]
+    have hn : (o.putSym t s v).names t = o.names t := by simp [TObj.names, TObj.putSym]
+    have a1 : (o.putSym t s v).absStr t = o.absStr t := by simp [TObj.absStr, hn, hg]
+    have hwf : (o.putSym t s v).WF t :=
+      ⟨h.tmplNodup, h.valuesNodup, by rw [hn]; exact h.namesNodup, by intro k; rw [hn, hg]; exact h.namesIff k⟩
+    refine ⟨?_, hwf⟩
+    simp only [TObj.step, TObj.absE, Eager.step, a1, putSym_abs]
+    rfl
+
+theorem run_refines [DecidableEq V] (undef : V) (t : Tmpl V) (ops : List (TOp V)) :
+    ∀ o : TObj V, o.WF t →
+      (ops.foldl (TObj.step undef t) o).absE t = ops.foldl (Eager.step undef) (o.absE t) ∧ (ops.foldl (TObj.step undef t) o).WF t := by
+  induction ops with
+  | nil => intro o h; exact ⟨rfl, h⟩
+  | cons op ops ih =>
+    intro o h
+    obtain ⟨e1, w1⟩ := step_refines undef t o h op
+    obtain ⟨e2, w2⟩ := ih _ w1
+    exact ⟨by simp only [List.foldl_cons]; rw [e2, e1], by simpa using w2⟩
+
 end GojaModel.C04
